@@ -2114,6 +2114,26 @@ fn alloc_bound(only: &str) -> String {
             cases.push(("wmo", format!("WMO: MVER + chunk {:?} declaring {:#x} bytes, 8 payload bytes", String::from_utf8_lossy(&m.iter().rev().cloned().collect::<Vec<u8>>()), size), f));
         }
     }
+    // MPQ V4 header (208 bytes) declaring huge HET / BET / hash / block table sizes inside a 4 KiB file
+    for (which, name) in [(0usize, "HET"), (1, "BET"), (2, "hash (64-bit size field)"), (3, "block (64-bit size field)"), (4, "hi-block")] {
+        for size in [0x7FFF_FFF0u64, 0xFFFF_FF00, 0x0000_0010_0000_0000] {
+            let mut v = b"MPQ\x1a".to_vec();
+            v.extend_from_slice(&208u32.to_le_bytes()); v.extend_from_slice(&4096u32.to_le_bytes());
+            v.extend_from_slice(&3u16.to_le_bytes()); v.extend_from_slice(&3u16.to_le_bytes());
+            for x in [0x400u32, 0x500, 16, 4] { v.extend_from_slice(&x.to_le_bytes()); }          // hash pos, block pos, hash entries, block entries
+            v.extend_from_slice(&(if which == 4 { 0x600u64 } else { 0 }).to_le_bytes());             // hi-block table pos
+            v.extend_from_slice(&0u16.to_le_bytes()); v.extend_from_slice(&0u16.to_le_bytes());      // pos high parts
+            v.extend_from_slice(&4096u64.to_le_bytes());                                            // archive size 64
+            v.extend_from_slice(&(if which == 1 { 0x700u64 } else { 0 }).to_le_bytes());             // BET pos
+            v.extend_from_slice(&(if which == 0 { 0x800u64 } else { 0 }).to_le_bytes());             // HET pos
+            let sizes: [u64; 5] = [if which == 2 { size } else { 256 }, if which == 3 { size } else { 64 }, if which == 4 { size } else { 0 }, if which == 0 { size } else { 0 }, if which == 1 { size } else { 0 }];
+            for x in sizes { v.extend_from_slice(&x.to_le_bytes()); }                               // hash, block, hi-block, HET, BET sizes
+            v.extend_from_slice(&0u32.to_le_bytes());                                               // raw chunk size
+            v.resize(208, 0);
+            v.resize(4096, 0x5A);
+            cases.push(("mpq", format!("MPQ V4 header declaring a {} table of {:#x} bytes in a 4096-byte file", name, size), v));
+        }
+    }
     let mut tried = 0;
     for (fam, desc, bytes) in cases {
         if !only.is_empty() && only != fam { continue; }
